@@ -2915,6 +2915,31 @@ def equal_variant(rng, S):
     return t()
 
 
+def expected_contains_set(A, B, atol):
+    """'t' / 'f' by the documented meaning, or None where the documentation is silent"""
+    import odl
+    from odl.set import sets as M
+    rank = {M.Integers: 0, M.RealNumbers: 1, M.ComplexNumbers: 2}
+    if type(A) in rank:
+        return 't' if type(B) in rank and rank[type(B)] <= rank[type(A)] else 'f'
+    if type(A) is M.UniversalSet:
+        return 't'
+    if type(A) is M.EmptySet:
+        return 't' if type(B) is M.EmptySet else 'f'
+    if type(A) is odl.IntervalProd and type(B) is odl.IntervalProd and A is not B:
+        if B.ndim == 0 or A.ndim == 0:
+            return None
+        if A.ndim != B.ndim:
+            return 'f'
+        a = 0.0 if atol is None else atol
+        if a < 0:
+            return None
+        ok = all(float(la) - a <= float(lb) and float(hb) <= float(ha) + a
+                 for la, ha, lb, hb in zip(A.min_pt, A.max_pt, B.min_pt, B.max_pt))
+        return 't' if ok else 'f'
+    return None
+
+
 def run_set_membership(ctx):
     import odl
     from odl.set import sets as M
@@ -3029,6 +3054,13 @@ def run_set_membership(ctx):
                 if r.startswith('x') or (r == 'e' and hasattr(B, 'min') and hasattr(B, 'max')):
                     viol(ctx, 'contains-set-raises {} {}'.format(cls(A), cls(B)),
                          '{!r}.contains_set({!r}, atol={}) gives {}'.format(A, B, atol, r), rep)
+                # documented meaning (independent of the model): the tower of number sets,
+                # and for interval products of equal positive dimension the end-point test
+                want = expected_contains_set(A, B, atol)
+                if want is not None and r != want:
+                    viol(ctx, 'contains-set-wrong {} {}'.format(cls(A), cls(B)),
+                         '{!r}.contains_set({!r}, atol={}) gives {} (expected {})'.format(
+                             A, B, atol, r, want), rep)
                 # soundness w.r.t. membership (exact inclusion only)
                 if r == 't' and atol in (None, 0.0):
                     for v in probes[j]:
@@ -3152,6 +3184,10 @@ def search(ctx, broken):
         except core.DriverBroken:
             pass
         run_history(sub)
+        try:
+            run_set_membership(sub)
+        except core.DriverBroken:
+            pass
         for v in sub.violations:
             ctx.violation(v['key'], v['what'], v['replay'])
     finally:
@@ -3181,6 +3217,10 @@ def replay(ctx, case):
         except core.DriverBroken:
             pass
         run_history(sub)
+        try:
+            run_set_membership(sub)
+        except core.DriverBroken:
+            pass
         keep = [v for v in sub.violations
                 if all(v['replay'].get(k) == case.get(k) for k in ('kind', 'space', 'op', 'input',
                                                                     'index', 'x', 'dtype',
